@@ -12,7 +12,7 @@ import datetime
 import random
 from fractions import Fraction
 
-from vh.core import MachineryError, guarded, Raised
+from vh.core import MachineryError, guarded, Raised, spell_flag
 from vh import xr
 
 NB = 24
@@ -99,6 +99,8 @@ def run(chk, replay=None):
         ev_bins = sorted(j + 1 for j in bins)
         alpha = an / ad
         snap = (numpy.array(fa.data).tobytes(), numpy.array(fb.data).tobytes(), cat.catalog.tobytes())
+        scale_lit = scale
+        scale = spell_flag(scale_lit, t // 5)       # the option as True / False, a numpy boolean, or 1 / 0
         r_ab = guarded(pe.paired_t_test, fa, fb, cat, alpha=alpha, scale=scale)
         r_ba = guarded(pe.paired_t_test, fb, fa, cat, alpha=alpha, scale=scale)
         nact = len(set(bins))
@@ -106,6 +108,7 @@ def run(chk, replay=None):
         rb_ba = guarded(be.binary_paired_t_test, fb, fa, cat, alpha=alpha, scale=scale) if nact >= 2 else None
         rw_ab = guarded(pe.w_test, fa, fb, cat, scale=scale)
         rw_ba = guarded(pe.w_test, fb, fa, cat, scale=scale)
+        scale = scale_lit
         chk.count(6)
         if snap != (numpy.array(fa.data).tobytes(), numpy.array(fb.data).tobytes(), cat.catalog.tobytes()):
             chk.violation('comparison tests changed their inputs', {'style': style, 'scale': scale, 'n': n,
